@@ -388,3 +388,11 @@ def term_kwargs_safe(t):
         return list(dict(t[3]).items()) if t[0] == 'call' else []
     except Exception:
         return []
+
+
+
+@obligation('C18-f', 'T6 T11', 'row index 0 is never tested by truth value (except `or 0`)', floor=2,
+            necessary='row 0 falling through to another index shares its seed with another row')
+def c18_f(ctx):
+    from .base import zero_is_valid_obligation
+    zero_is_valid_obligation(ctx, ['batch_index', 'index_in_batch'])
